@@ -120,3 +120,181 @@ Lemma unguarded_read_refuted : exists t, write W.f_Rectangle "rectangle" plain_r
                                           read R.f_Rectangle t = Some plain_rectangle /\
                                           read rectangle_unguarded t = None.
 Proof. eexists. split; [vm_compute; reflexivity|]. split; vm_compute; reflexivity. Qed.
+
+(* ---------------------------------------------------------------- conforms => the runtime accepts what is written *)
+Lemma write_tag f : wf f = true -> forall tag v t, write f tag v = Some t -> tag_of t = tag.
+Proof. intros Hwf tag v t H. destruct codec_mutual as [Hf _]. exact (proj2 (Hf f Hwf tag v t H)). Qed.
+
+Lemma mapM_tags f (Hwf : wf f = true) tag : forall l ks, mapM (write f tag) l = Some ks ->
+  forall x, In x ks -> tag_of x = tag.
+Proof.
+  induction l as [|a l IH]; intros ks H x Hx; simpl in H.
+  - inversion H; subst. destruct Hx.
+  - destruct (write f tag a) as [y|] eqn:Ey; [|discriminate].
+    destruct (mapM (write f tag) l) as [ys|] eqn:Eys; [|discriminate].
+    inversion H; subst. destruct Hx as [Hx|Hx].
+    + subst. eapply write_tag; eauto.
+    + eapply IH; eauto.
+Qed.
+
+(* the children one field contributes *)
+Definition group (m : mult) (f : fmt) (t : string) (v : val) : option (list tree) :=
+  match m, v with
+  | MReq, _ => match write f t v with Some x => Some [x] | None => None end
+  | MOpt, VNone => Some []
+  | MOpt, VSome v' => match write f t v' with Some x => Some [x] | None => None end
+  | MMany, VList l => mapM (write f t) l
+  | _, _ => None
+  end.
+
+Lemma write_fields_cons t m f r v vs : write_fields (FCons t m f r) (v :: vs) =
+  match group m f t v, write_fields r vs with Some g, Some ks => Some (g ++ ks) | _, _ => None end.
+Proof. reflexivity. Qed.
+
+Lemma group_shape m f t v g : wf f = true -> group m f t v = Some g ->
+  (forall x, In x g -> tag_of x = t) /\
+  match m with MReq => length g = 1%nat | MOpt => (length g <= 1)%nat | MMany => True end.
+Proof.
+  intros Hwf H. destruct m; simpl in H.
+  - destruct (write f t v) as [x|] eqn:E; [|discriminate]. inversion H; subst. split; [|reflexivity].
+    intros y [Hy|[]]. subst. eapply write_tag; eauto.
+  - destruct v; try discriminate.
+    + inversion H; subst. split; [intros y []|simpl; lia].
+    + destruct (write f t v) as [x|] eqn:E; [|discriminate]. inversion H; subst. split; [|simpl; lia].
+      intros y [Hy|[]]. subst. eapply write_tag; eauto.
+  - destruct v; try discriminate. split; [|exact I]. eapply mapM_tags; eauto.
+Qed.
+
+Lemma count_all t g : (forall x, In x g -> tag_of x = t) -> count_tag t g = length g.
+Proof. intro H. unfold count_tag. rewrite findall_all; auto. Qed.
+Lemma count_none t g : (forall x, In x g -> tag_of x <> t) -> count_tag t g = 0%nat.
+Proof. intro H. unfold count_tag. rewrite findall_none; auto. Qed.
+Lemma count_app t a b : count_tag t (a ++ b) = (count_tag t a + count_tag t b)%nat.
+Proof. unfold count_tag. rewrite findall_app, app_length. reflexivity. Qed.
+
+Lemma mult_of_none t fs : mult_of t fs = None -> ~ In t (field_tags fs).
+Proof.
+  induction fs as [|t' m f r IH]; simpl; intros H; [tauto|].
+  destruct (String.eqb t t') eqn:E; [discriminate|]. apply String.eqb_neq in E.
+  intros [H1|H1]; [congruence|]. exact (IH H H1).
+Qed.
+Lemma mult_of_in t fs m : mult_of t fs = Some m -> In t (field_tags fs).
+Proof.
+  induction fs as [|t' m' f r IH]; simpl; intros H; [discriminate|].
+  destruct (String.eqb t t') eqn:E.
+  - apply String.eqb_eq in E. left. congruence.
+  - right. exact (IH H).
+Qed.
+
+(* tags of the children are field names; a required field contributes exactly one child, an optional one at most one *)
+Lemma write_fields_shape : forall fs, wf_fields fs = true -> distinct (field_tags fs) = true ->
+  forall vs ks, write_fields fs vs = Some ks ->
+    (forall x, In x ks -> In (tag_of x) (field_tags fs)) /\
+    (forall t, mult_of t fs = Some MReq -> count_tag t ks = 1%nat) /\
+    (forall t, mult_of t fs = Some MOpt -> (count_tag t ks <= 1)%nat).
+Proof.
+  induction fs as [|t m f r IH]; intros Hwf Hd vs ks H.
+  - destruct vs; simpl in H; [|discriminate]. inversion H; subst.
+    split; [intros x []|]. split; intros t0 H0; discriminate.
+  - destruct vs as [|v vs']; [simpl in H; discriminate|].
+    rewrite write_fields_cons in H.
+    simpl in Hwf. apply andb_true_iff in Hwf. destruct Hwf as [Hwff Hwfr].
+    simpl in Hd. apply distinct_cons in Hd. destruct Hd as [Hni Hdr].
+    destruct (group m f t v) as [g|] eqn:Eg; [|discriminate].
+    destruct (write_fields r vs') as [ks0|] eqn:Er; [|discriminate].
+    inversion H; subst ks. clear H.
+    destruct (IH Hwfr Hdr _ _ Er) as [Htags [Hone Hle]].
+    destruct (group_shape _ _ _ _ _ Hwff Eg) as [Hg Hlen].
+    assert (Hks0 : forall x, In x ks0 -> tag_of x <> t).
+    { intros x Hx E. apply Hni. rewrite <- E. apply Htags. exact Hx. }
+    split; [|split].
+    + intros x Hx. apply in_app_or in Hx. destruct Hx as [Hx|Hx].
+      * left. symmetry. apply Hg. exact Hx.
+      * right. apply Htags. exact Hx.
+    + intros t0 H0. simpl in H0. rewrite count_app. destruct (String.eqb t0 t) eqn:E.
+      * apply String.eqb_eq in E. subst t0. inversion H0; subst m.
+        rewrite (count_all _ _ Hg), (count_none _ _ Hks0). lia.
+      * apply String.eqb_neq in E. rewrite (count_none t0 g).
+        -- simpl. apply Hone. exact H0.
+        -- intros x Hx E'. apply E. rewrite <- E'. apply Hg. exact Hx.
+    + intros t0 H0. simpl in H0. rewrite count_app. destruct (String.eqb t0 t) eqn:E.
+      * apply String.eqb_eq in E. subst t0. inversion H0; subst m.
+        rewrite (count_all _ _ Hg), (count_none _ _ Hks0). lia.
+      * apply String.eqb_neq in E. rewrite (count_none t0 g).
+        -- simpl. apply Hle. exact H0.
+        -- intros x Hx E'. apply E. rewrite <- E'. apply Hg. exact Hx.
+Qed.
+
+Lemma find_field_name n dfs p : find_field n dfs = Some p -> pf_name p = n.
+Proof.
+  unfold find_field. intro H. apply find_some in H. destruct H as [_ H]. apply String.eqb_eq in H. exact H.
+Qed.
+
+Lemma find_field_distinct dfs : distinct (map pf_name dfs) = true -> forall p, In p dfs -> find_field (pf_name p) dfs = Some p.
+Proof.
+  induction dfs as [|q dfs IH]; intros Hd p Hp; [destruct Hp|].
+  simpl in Hd. apply distinct_cons in Hd. destruct Hd as [Hni Hd].
+  unfold find_field. simpl. destruct Hp as [Hp|Hp].
+  - subst. rewrite String.eqb_refl. reflexivity.
+  - destruct (String.eqb (pf_name q) (pf_name p)) eqn:E.
+    + apply String.eqb_eq in E. exfalso. apply Hni. rewrite E. apply in_map. exact Hp.
+    + apply IH; assumption.
+Qed.
+
+Lemma fields_ok_in recs dfs fs : fields_ok recs dfs fs = true ->
+  forall t, In t (field_tags fs) -> exists p m, find_field t dfs = Some p /\ mult_of t fs = Some m /\ label_ok m (pf_label p) = true.
+Proof.
+  induction fs as [|t' m f r IH]; simpl; intros H t Ht; [destruct Ht|].
+  apply andb_true_iff in H. destruct H as [H1 H2].
+  destruct (String.eqb t t') eqn:E.
+  - apply String.eqb_eq in E. subst t'.
+    destruct (find_field t dfs) as [p|] eqn:Ep; [|discriminate].
+    apply andb_true_iff in H1. destruct H1 as [H1 _]. exists p, m. auto.
+  - apply String.eqb_neq in E. destruct Ht as [Ht|Ht]; [congruence|].
+    destruct (IH H2 t Ht) as [p [m' [A [B C]]]]. exists p, m'. auto.
+Qed.
+
+Theorem conforms_wire_ok : forall d ign recs mname fs dfs,
+  conforms_rec d ign recs (mname, FRec fs) = true -> lookup mname d = Some dfs -> wf (FRec fs) = true ->
+  forall vs ks, write_fields fs vs = Some ks -> wire_ok ign mname dfs ks = true.
+Proof.
+  intros d ign recs mname fs dfs Hc Hl Hwf vs ks Hw.
+  unfold conforms_rec in Hc. simpl in Hc. rewrite Hl in Hc.
+  repeat (apply andb_true_iff in Hc; destruct Hc as [Hc ?]).
+  rename H into Hcov. rename H0 into Hok. rename H1 into Hdd. rename Hc into Hdf.
+  simpl in Hwf. apply andb_true_iff in Hwf. destruct Hwf as [_ Hwff].
+  destruct (write_fields_shape fs Hwff Hdf vs ks Hw) as [Htags [Hone Hle]].
+  unfold wire_ok. apply andb_true_iff. split.
+  - apply forallb_forall. intros k Hk.
+    destruct (fields_ok_in _ _ _ Hok _ (Htags k Hk)) as [p [m [A _]]]. rewrite A. reflexivity.
+  - apply forallb_forall. intros p Hp.
+    pose proof (find_field_distinct dfs Hdd p Hp) as Hfp.
+    unfold required_covered in Hcov. rewrite forallb_forall in Hcov. specialize (Hcov p Hp).
+    destruct (mult_of (pf_name p) fs) as [m|] eqn:Em.
+    + destruct (fields_ok_in _ _ _ Hok _ (mult_of_in _ _ _ Em)) as [p' [m' [A [B C]]]].
+      rewrite Hfp in A. inversion A; subst p'. rewrite Em in B. inversion B; subst m'.
+      destruct (pf_label p), m; simpl in C; try discriminate; try reflexivity.
+      * apply Nat.leb_le. rewrite (Hone _ Em). lia.
+      * apply Nat.leb_le. apply Hle. exact Em.
+      * rewrite (Hone _ Em). reflexivity.
+    + pose proof (mult_of_none _ _ Em) as Hn.
+      assert (Hz : count_tag (pf_name p) ks = 0%nat).
+      { apply count_none. intros x Hx E. apply Hn. rewrite <- E. apply Htags. exact Hx. }
+      destruct (pf_label p); try reflexivity.
+      * rewrite Hz. reflexivity.
+      * rewrite Hz. simpl. exact Hcov.
+Qed.
+
+(* ... instantiated: every message, at every nesting level, that the model's writer emits under the generated
+   writer table holds only fields of its message type, singular fields at most once, every required field *)
+Lemma writer_records_wf : forallb (fun r => wf (snd r)) W.records = true.
+Proof. vm_compute. reflexivity. Qed.
+
+Lemma written_messages_wire_ok : forall mname fs dfs, In (mname, FRec fs) W.records -> lookup mname pb_desc = Some dfs ->
+  forall vs ks, write_fields fs vs = Some ks -> wire_ok pb_ignored mname dfs ks = true.
+Proof.
+  intros mname fs dfs Hin Hl vs ks Hw.
+  pose proof writer_tables_conform as Hc. unfold conforms in Hc. rewrite forallb_forall in Hc.
+  pose proof writer_records_wf as Hwf. rewrite forallb_forall in Hwf.
+  eapply conforms_wire_ok; [exact (Hc _ Hin) | exact Hl | exact (Hwf _ Hin) | exact Hw].
+Qed.
